@@ -25,7 +25,7 @@ from pathlib import Path
 from ..common import Run, repo_import, seed, REPO
 from ..tlc import run_tlc, write_cfg, MachineryError
 
-BASE = dict(SharedGraphDefault=False, MutatesModel=False, LoadKeepsCache=False)
+BASE = dict(SharedGraphDefault=False, MutatesModel=False, LoadKeepsCache=False, MutatesNested=False)
 CHANNELS = ["model", "json", "csvdir", "csvpair", "xlsx", "units_json"]
 INVS = ["C11_Pure", "C11_InputUnchanged", "C11_NoModuleState", "C16_WrapperDescribesLoaded"]
 PROPS_T = ["C16_RepeatIsCached"]
@@ -150,6 +150,14 @@ def _init(fresh):
     _W.update(service=pinch_analysis_service, PinchProblem=PinchProblem, TargetInput=TargetInput, fresh=fresh,
               models={p: TargetInput.model_validate(copy.deepcopy(PROBLEMS[p])) for p in PROBLEMS})
     _W["model_snap"] = {p: m.model_dump_json() for p, m in _W["models"].items()}
+    # the caller's own stream / utility schema objects, handed over inside a plain dictionary and reused across calls
+    from OpenPinch.lib.schema import StreamSchema, UtilitySchema
+    _W["mk_nested"] = lambda p: dict(copy.deepcopy({k: v for k, v in PROBLEMS[p].items() if k not in ("streams", "utilities")}),
+                                     streams=[StreamSchema.model_validate(copy.deepcopy(x)) for x in PROBLEMS[p]["streams"]],
+                                     utilities=[UtilitySchema.model_validate(copy.deepcopy(x)) for x in PROBLEMS[p]["utilities"]])
+    _W["nested_sig"] = lambda d: json.dumps([o.model_dump_json() for o in d["streams"] + d["utilities"]] + [repr(sorted(k for k in d))])
+    _W["nested"] = {p: _W["mk_nested"](p) for p in PROBLEMS}
+    _W["nested_snap"] = {p: _W["nested_sig"](d) for p, d in _W["nested"].items()}
 
 
 def materialise(p, ch, d: Path):
@@ -207,6 +215,8 @@ def replay_history(case):
                         inp = with_units(PROBLEMS[p]); snap = copy.deepcopy(inp); same = lambda: inp == snap
                     elif kind == "call_model":
                         inp = _W["TargetInput"].model_validate(copy.deepcopy(PROBLEMS[p])); snap = inp.model_dump_json(); same = lambda: inp.model_dump_json() == snap
+                    elif kind == "call_nested_reused":
+                        inp = _W["nested"][p]; snap = _W["nested_snap"][p]; same = lambda: _W["nested_sig"](inp) == snap
                     else:
                         inp = _W["models"][p]; snap = inp.model_dump_json(); same = lambda: inp.model_dump_json() == snap
                     res = _W["service"](inp, project_name="Site")
@@ -214,7 +224,9 @@ def replay_history(case):
                     if dg != fresh[p]:
                         bad("C11.result_equals_fresh_process", got=dg[:400], expected=fresh[p][:400])
                     if not same():
-                        bad("C11.input_unchanged")
+                        bad("C11.input_unchanged", form=kind)
+                        if kind == "call_nested_reused":
+                            _W["nested"][p] = _W["mk_nested"](p)          # restore for the next call / history
                     earlier.append((res, dg))
                     last_target = None
                 elif kind == "load":
@@ -313,7 +325,7 @@ def inductive_leg(run: Run, tier, consts):
         if v != "NoError":
             run.machinery_errors.append(f"Apalache did not discharge the inductive invariant ({label}): {v}\n{tail}")
     if tier == "thorough":
-        for sw in ("SharedGraphDefault", "MutatesModel", "LoadKeepsCache"):
+        for sw in ("SharedGraphDefault", "MutatesModel", "LoadKeepsCache", "MutatesNested"):
             v, secs, tail = _apalache({sw: True}, "IndInit", 1)
             notes["mutant " + sw] = dict(outcome=v, seconds=secs)
             if v != "Error":
@@ -379,7 +391,7 @@ def check(prop, tier, run: Run, replay_case=None):
     inductive_leg(run, tier, consts)
     cases = []
     if prop == "C11":
-        # every history of 3 (quick) / 4 service calls over 3 problems x 4 input forms, all replayed
+        # every history of 3 (quick) / 4 service calls over 3 problems x 5 input forms, all replayed
         c1 = dict(consts, EnableWrapper=False, MaxOps=3 if tier == "quick" else 4, DoEmit=True)
         r1 = _tlc("ServiceHistory.tla", c1, INVS + ["EmitCase"], (), workers=8)
         run.add_tlc(r1, "ServiceHistory/calls")
@@ -416,7 +428,7 @@ def check(prop, tier, run: Run, replay_case=None):
         sheetnames_leg(run, tier)
     if tier == "thorough":
         mm = run.notes.setdefault("mutant_models", {})
-        for sw in ("SharedGraphDefault", "MutatesModel", "LoadKeepsCache"):
+        for sw in ("SharedGraphDefault", "MutatesModel", "LoadKeepsCache", "MutatesNested"):
             r = _tlc("ServiceHistory.tla", dict(consts, DoEmit=False, MaxOps=3, **{sw: True}), INVS, PROPS_T)
             mm[sw] = r.violated
             if not r.violated:
